@@ -45,6 +45,11 @@ def run(ctx):
             broken.append({"kind": "obligation", "name": "driver c05 crashed", "detail": err[-1500:]})
         dis = ctx.correspond(lines, orc, "record writers/readers ↔ Spec/RecordBatch (+ Model/RecordWriter byte-exact)",
                              nontrivial=lambda op, impl: not op.startswith("crc"))
+        # page hooks of protocol/buffer.go: recorded traces must be accepted by the LTS of Model/Pages
+        tlines, trc, terr = ctx.run_driver(drv, ["pagetrace"], env={"VERIF_ORACLE": orc})
+        if trc != 0:
+            broken.append({"kind": "obligation", "name": "driver c05 pagetrace crashed", "detail": terr[-1500:]})
+        dis += ctx.correspond(tlines, orc, "protocol/buffer.go page events ↔ Model/Pages (trace acceptance)")
         tags = {}
         for l in lines:
             if l.startswith("wire "):
